@@ -60,8 +60,10 @@ class WeightSaveCallback(Callback):
         if (self.check_interval > 0 and batch_idx > 0) and (
             (batch_idx - 1) % self.check_interval == 0
         ):
-            if trainer.logged_metrics["train/loss"] < self.current_loss:
-                self.current_loss = trainer.logged_metrics["train/loss"]
+            # (right after resuming from a checkpoint no loss has been logged yet)
+            loss = trainer.logged_metrics.get("train/loss")
+            if loss is not None and loss < self.current_loss:
+                self.current_loss = loss
                 torch.save(
                     self.model.state_dict(),
                     self.path + "/" + self.name + "_min_loss.pt",
